@@ -17,3 +17,39 @@ def roundtrip_phys_norm(vec, mode):
 def scale_then_unscale(self, vec):
     self._apply_vec_scaling(vec)
     self._apply_vec_unscaling(vec)
+
+
+# ---- C06 ------------------------------------------------------------------------------------
+def units_round_trip(a, b, x):
+    f1, o1 = a.conversion_tuple_to(b)
+    f2, o2 = b.conversion_tuple_to(a)
+    return ((x + o1) * f1 + o2) * f2
+
+
+def units_transitive(a, b, c, x):
+    f1, o1 = a.conversion_tuple_to(b)
+    f2, o2 = b.conversion_tuple_to(c)
+    f3, o3 = a.conversion_tuple_to(c)
+    return ((x + o1) * f1 + o2) * f2, (x + o3) * f3
+
+
+def units_compat_decides(a, b):
+    try:
+        a.conversion_tuple_to(b)
+        converts = True
+    except TypeError:
+        converts = False
+    return a.is_compatible(b), converts, b.is_compatible(a)
+
+
+def units_compat_transitive(a, b, c):
+    return a.is_compatible(b), b.is_compatible(c), a.is_compatible(c), a.is_compatible(a)
+
+
+def units_composite_conversion(a, b, c, d, x):
+    ab = a * b
+    cd = c * d
+    f, o = ab.conversion_tuple_to(cd)
+    f1, o1 = a.conversion_tuple_to(c)
+    f2, o2 = b.conversion_tuple_to(d)
+    return (x + o) * f, x * f1 * f2
